@@ -278,6 +278,25 @@ def _quirks():
         q["nameMismatchRemoves"] = "remove" in calls
     else:
         raise ExtractionError("BlockBase.match: trailing name check changed shape")
+    # the trailing name check: is `start_stmt.get_name() is None` handled?
+    none_ifs = [n for n in ast.walk(ast.Module(body=[final_if] if False else tree.body, type_ignores=[]))
+                if isinstance(n, ast.If) and isinstance(n.test, ast.Compare)
+                and len(n.test.ops) == 1 and isinstance(n.test.ops[0], ast.Is)
+                and "start_stmt" in ast.dump(n.test.left) and "get_name" in ast.dump(n.test.left)
+                and isinstance(n.test.comparators[0], ast.Constant)
+                and n.test.comparators[0].value is None]
+    if not none_ifs:
+        q["startNameNoneSyntax"] = False
+    elif len(none_ifs) == 1:
+        body2 = ast.Module(body=none_ifs[0].body, type_ignores=[])
+        calls2 = [getattr(c.func, "attr", "") for c in ast.walk(body2) if isinstance(c, ast.Call)]
+        raises2 = [r for r in ast.walk(body2) if isinstance(r, ast.Raise)]
+        if len(raises2) == 1 and "FortranSyntaxError" in ast.dump(raises2[0]) and "remove" in calls2:
+            q["startNameNoneSyntax"] = True
+        else:
+            raise ExtractionError("BlockBase.match: unnamed-start branch has an unmodelled shape")
+    else:
+        raise ExtractionError("BlockBase.match: several `start_stmt.get_name() is None` tests")
     # Outer/Inner_Shared_Do_Construct.match: restore on failure or not
     shapes = []
     for cls in (Fortran2003.Outer_Shared_Do_Construct, Fortran2003.Inner_Shared_Do_Construct):
@@ -583,7 +602,7 @@ def render_lean(t):
     L.append("    quirks := { %s }" % ", ".join(
         "%s := %s" % (k, _b(q[k])) for k in ["main0Finally", "catchInternalSyntax",
                                              "nameMismatchSyntax", "nameMismatchRemoves",
-                                             "seqRestores"]))
+                                             "seqRestores", "startNameNoneSyntax"]))
     L.append("  }")
     L.append("")
     L.append("def program : Cls := %d" % t["program"])
